@@ -236,6 +236,8 @@ FINDINGS = [
          what="string-vs-number and list comparisons, augmented arithmetic on lists / strings, str() of a list, and/or yielding a string, a string assigned to a number variable, a string literal on the left of a comparison were accepted and did not compile", cases=[]),
     dict(id="KF-C02-recursive-variant-join", property="C02", status="fixed", commit="3644f33",
          what="a recursive helper handing its arguments on in another order (alt(q, p, n - 1)) had the variant analysed second typed int because its partner's result was still unknown: alt(2.5, 1, 2) returned 2", cases=[]),
+    dict(id="KF-C17-lcd-positional-argument-order", property="C17", status="fixed", commit="8840f2f",
+         what="lcd.progress(f(), g(), max_value=h(), width=k()) evaluated the keyword arguments (hoisted into temporaries) before the positional row / value", cases=[]),
     dict(id="KF-C14-lcd-rebind", property="C14", status="open", commit=None,
          what="one name bound first to a parallel LCD and later to an I2C LCD (or the reverse): both libraries are requested, but the emitter keeps only the first display (one header, one object); outside the documented style, like KF-C05-rebind",
          cases=c14_rebind_cases()),
